@@ -316,6 +316,44 @@ def dyadic(fr):
     return d & (d - 1) == 0 and d <= (1 << 40)
 
 
+def allele_status_uncovered(d, tot, a, T):
+    """Position at which some sample has no base call.  The statement does not say whether such a sample counts in the mean
+    (as frequency 0) or is left out, nor whether it can 'meet' thresholds of zero; the status is decided only where both
+    readings agree: 'pass' = listed under either reading, 'fail' = listed under neither."""
+    S = len(tot)
+    cov = [s for s in range(S) if tot[s] > 0]
+    fr = {s: Fraction(int(d[s, a]), int(tot[s])) for s in cov}
+    lo = hi = 0
+    for s in range(S):
+        if s not in fr:
+            if T["ind_mad"] <= 0:
+                hi += 1      # depth 0 reaches a depth threshold of 0; its frequency is undefined: open
+            continue
+        if int(d[s, a]) < T["ind_mad"]:
+            continue
+        c1 = cmp_exact(fr[s], T["ind_maf"])
+        if c1 == "pass":
+            lo += 1
+            hi += 1
+        elif c1 == "amb":
+            hi += 1
+    parts = ["pass" if lo >= T["min_ind"] else ("fail" if hi < T["min_ind"] else "amb")]
+    if T["maf"] > 0:
+        if not cov:
+            parts.append("amb")
+        else:
+            tsum_f = sum(fr.values(), Fraction(0))
+            cs = set()
+            for x in (tsum_f / S, tsum_f / len(cov)):
+                c = cmp_exact(x, T["maf"])
+                cs.add("amb" if x == Fraction(T["maf"]) else c)
+            parts.append(cs.pop() if len(cs) == 1 else "amb")
+    tsum = int(d[:, a].sum())
+    if T["mad"] > 0:
+        parts.append("pass" if tsum >= T["mad"] else "fail")
+    return "fail" if "fail" in parts else ("amb" if "amb" in parts else "pass")
+
+
 def allele_status(d, tot, a, T, strict_mad=False, strict_maf=False, pop="mean"):
     S = len(tot)
     fr = [Fraction(int(d[s, a]), int(tot[s])) for s in range(S)]
@@ -667,6 +705,35 @@ def check_vcf(text, ds, basis, T, col, found, depths_are_oracle):
                         if score[alts[j]] > score[alts[i]] + Fraction(TOL):
                             found.append(("alt-order-not-by-frequency", "%s: ALT %s: over the samples with coverage %s has summed frequency %.6f but the later %s has %.6f (a sample has no base call here; depths %s)" % (
                                 where, ",".join(rec.alts), BASES[alts[i]], float(score[alts[i]]), BASES[alts[j]], float(score[alts[j]]), d.tolist())))
+            # session 4: the LISTING is decided too wherever both readings of the statement agree (an uncovered sample counted in the
+            # mean as frequency 0, or left out of it; an uncovered sample never "meets" a positive individual depth threshold)
+            sts_u = [allele_status_uncovered(d, tot, a, T) for a in range(4)]
+            if "amb" in sts_u:
+                col.count("positions_uncovered_sample_listing_open")
+                continue
+            col.count("positions_uncovered_sample_listing_decided")
+            L = [a for a in range(4) if sts_u[a] == "pass"]
+            emit = len(L) >= 2
+            if emit:
+                col.count("positions_uncovered_sample_expected_emitted")
+                if T["maf"] > 0:
+                    col.count("positions_uncovered_sample_expected_emitted_with_maf")
+            desc = "thresholds %s; depths (samples x ACGT, a sample has no base call here) %s; alleles meeting them whether or not the uncovered sample counts in the mean: %s" % (T, d.tolist(), [BASES[a] for a in L])
+            mech_sfx = "-with-uncovered-sample"
+            if rec is None:
+                if emit:
+                    found.append(("position-missing-or-spurious" + mech_sfx, "%s: %d alleles meet the thresholds but no record was written; %s" % (where, len(L), desc)))
+                continue
+            if alleles is None:
+                continue
+            if not emit:
+                found.append(("position-missing-or-spurious" + mech_sfx, "%s: record written (%s %s) although only %d allele(s) meet the thresholds; %s" % (where, rec.ref, ",".join(rec.alts), len(L), desc)))
+                continue
+            if set(alleles[1:]) != set(L) - {alleles[0]}:
+                found.append(("allele-listing-threshold-wrong" + mech_sfx, "%s: ALT %s, expected the set %s; %s" % (where, rec.alts, [BASES[a] for a in L if a != alleles[0]], desc)))
+                continue
+            if masked != (alleles[0] not in L):
+                found.append(("refmasked-flag-wrong" + mech_sfx, "%s: REFMASKED %s but the reference base %s %s the thresholds; %s" % (where, "present" if masked else "absent", refb, "failed" if alleles[0] not in L else "meets", desc)))
             continue
         sts, means, sums = classify_position(d, T, col)
         if "amb" in sts:
